@@ -267,7 +267,14 @@ func RunJob(t *testing.T, job Job) WorkerResult {
 				switches[k] = struct{}{}
 			}
 		}
-		if out.Res.StepCapHit {
+		if m.Dense {
+			res.Probes["dense-runs"]++
+		}
+		if out.Res.StepCapHit && m.Dense {
+			// a dense run multiplies the steps of whatever loops it instruments; running into the cap there only
+			// ends that run's extra exploration, it says nothing about the ordinary runs
+			res.Probes["dense-runs-step-capped"]++
+		} else if out.Res.StepCapHit {
 			res.StepCap++
 		}
 		if out.Inconclusive {
